@@ -164,7 +164,7 @@ pub fn fmt_check<T: StrApi>(run: &mut Run) {
         sets::full(bits)
     } else {
         let mut v = sets::structured(T::DIGIT_BITS, T::N, Tier::Quick);
-        v.truncate(if tier == Tier::Thorough { 1500 } else { 260 });
+        v.truncate(if tier == Tier::Thorough { 1500 } else if bits > 256 { 80 } else { 260 });
         v
     };
     let nb = T::bytes();
@@ -173,6 +173,9 @@ pub fn fmt_check<T: StrApi>(run: &mut Run) {
     let ten = Z::from_i128(10);
     while p <= max {
         for m in [1i128, 2, 7, 12, 105] {
+            if bits > 256 && tier == Tier::Quick && (m == 2 || m == 12) {
+                continue;
+            }
             let x = p.mul(&Z::from_i128(m));
             if x <= max {
                 vals.push(x.to_le_bytes_wrapped(nb));
